@@ -92,7 +92,7 @@ def toRustFieldName (forbidden : List (List Char)) (tr : Tr) (name : List Char) 
     if ident.isEmpty then ['_']
     else
       let ident := if neg then "negative_".toList ++ ident else ident
-      if ident == "self".toList then "self_".toList
+      if ident == "self".toList || ident == "crate".toList || ident == "super".toList then ident ++ ['_']
       else if forbidden.contains ident then 'r' :: '#' :: ident
       else prefixIfDigit '_' ident
 
